@@ -290,6 +290,17 @@ class StubD:
 
 
 # ==========================================================================================
+class Unobservable(Exception):
+    """the oracle needs a private attribute that the code no longer has: the tie is broken, this is not a
+    failing input of the implementation"""
+
+
+def priv(obj, name):
+    if not hasattr(obj, name):
+        raise Unobservable('%s has no attribute %r any more (the oracle reads the recorded history through it)' % (type(obj).__name__, name))
+    return getattr(obj, name)
+
+
 def deq(a, b):
     """deep equality of results (tuples / namedtuples / arrays / None)"""
     if a is None or b is None:
@@ -496,7 +507,7 @@ def run_prec(c, py):
             out['diffs'].append(('size distribution', 'eqAspectRatio[%s]' % ph))
         if c['record'] in ('on', 'toggle'):
             for a in ('_recordedTime', '_recordedBins', '_recordedPSD'):
-                if not same(getattr(A, a), getattr(B, a, None)):
+                if not same(priv(A, a), getattr(B, a, None)):
                     out['diffs'].append(('recorded size distributions', 'PBM[%s].%s' % (ph, a)))
     # coupled strength model
     if sm is not None:
@@ -592,7 +603,7 @@ def run_diff(c, py):
     if not same(m.x, m2.x):
         out['diffs'].append(('current state', 'x'))
     for a in ('_recordedX', '_recordedTime'):
-        if not same(getattr(m, a), getattr(m2, a)):
+        if not same(priv(m, a), getattr(m2, a, None)):
             out['diffs'].append(('recorded profiles', a))
     return out
 
@@ -624,7 +635,7 @@ def model_digest(m, kind):
     """the arrays the property asks to be reproduced, as a list of (label, value)"""
     out = []
     if kind == 'diff':
-        out += [('t', m.t), ('x', m.x), ('_recordedX', m._recordedX), ('_recordedTime', m._recordedTime)]
+        out += [('t', m.t), ('x', m.x), ('_recordedX', priv(m, '_recordedX')), ('_recordedTime', priv(m, '_recordedTime'))]
     else:
         for name, v in vars(m.pData).items():
             if (isinstance(v, np.ndarray) and v.dtype.kind in 'fiub') or isinstance(v, (int, float, np.integer)):
@@ -1406,6 +1417,11 @@ def explore(ctx, cases, py):
     for c in cases:
         try:
             hs, r = evaluate_case(c, py)
+        except Unobservable as e:
+            hs, r = [], None
+            ctx.violation('observation', {'site': 'harness/c20.py', 'cls': 'private attribute gone'},
+                          {'broken': {'oracle': str(e)}},
+                          'tie broken: %s; nothing can be said about this clause from outside' % e, no_input=True)
         except Exception as e:
             hs, r = [('no_internal_error', 'harness/c20.py', 'exception', 'evaluating a %s case raised %s' % (c['kind'], exc_name(e)))], None
         key = {k: v for k, v in c.items() if k not in ('idx', 'from_corpus')}
